@@ -16,7 +16,9 @@
    negative controls (the property must then fail):
      "poporder"   what the code does
      "timeorder"  re-push sorted by time only, ties by component name
-     "noguard"    forget the ticking guards                                  *)
+     "noguard"    forget the ticking guards
+     "noseq"      renumber the restored events but restart the sequence counter at 0
+                  (a later event would then overtake restored same-time events)  *)
 EXTENDS TickImpl
 CONSTANT RestoreMode
 VARIABLE cuts
@@ -29,7 +31,7 @@ RestoreQueue(q) ==
     THEN {[c |-> e.c, t |-> e.t, sec |-> e.sec,
            ord |-> Cardinality({f \in q : f.t < e.t \/ (f.t = e.t /\ f.sec = e.sec /\ f.ord > e.ord)})] : e \in q}
     ELSE {[c |-> e.c, t |-> e.t, sec |-> e.sec, ord |-> Rank(e, q)] : e \in q}
-Restore(g) == [evq |-> RestoreQueue(g.evq), ord |-> Cardinality(g.evq),
+Restore(g) == [evq |-> RestoreQueue(g.evq), ord |-> IF RestoreMode = "noseq" THEN 0 ELSE Cardinality(g.evq),
                guard |-> IF RestoreMode = "noguard" THEN [c \in DOMAIN g.guard |-> [has |-> FALSE, next |-> 0]] ELSE g.guard,
                pend |-> g.pend]
 Canon(g) == [evq |-> {[c |-> e.c, t |-> e.t, sec |-> e.sec, ord |-> Rank(e, g.evq)] : e \in g.evq},
@@ -45,5 +47,7 @@ CSpec == CInit /\ [][CNext]_cvars
 CutInvisible == [][cuts' # cuts => Canon(G') = Canon(G)]_cvars
 (* the restored guards still cover every queued tick, and nothing is lost afterwards *)
 RestoredGuardSound == GuardSound
+(* every queued event was scheduled before anything that will be scheduled from now on *)
+SeqFresh == \A e \in G.evq : e.ord < G.ord
 NoLostAfterCut == (Quiescent /\ cuts > 0) => ~Lost
 =============================================================================
